@@ -24,7 +24,7 @@ def _f(bits):
     return struct.unpack("<d", struct.pack("<Q", int(bits)))[0]
 
 
-def _huge(v):
+def _huge_unused(v):
     if not v or v.get("big"):
         return False
     f = _f(v["z"])
@@ -35,59 +35,23 @@ def _det(a):
     return bool(a) and a.get("d", 0) != 0
 
 
-def p_f11(case, rec, exp):
-    o, rs, ri = _at(case, exp, ("copywithin",))
-    return bool(o) and rs == "RUndef" and ri == "RUndef"
-
-
-def p_f10(case, rec, exp):
-    o, rs, ri = _at(case, exp, ("set", "fill", "dvset", "setarr", "settyped"))
-    if not o or rs != "RUndef" or ri != "RUndef":
-        return False
-    if o["o"] == "settyped":
-        return True       # float source elements beyond 2^63 (values are in the buffer, not in the case)
-    return _huge(o.get("val")) or any(_huge(v) for v in o.get("src", []))
-
-
-def p_n1(case, rec, exp):
-    o, rs, ri = _at(case, exp, ("setarr",))
-    return bool(o) and any(_det(v) for v in o.get("src", [])) and ri in ("RUndef", "RErr TypeError")
-
-
-def p_n2(case, rec, exp):
-    o, rs, ri = _at(case, exp, ("settyped",))
-    return bool(o) and ri == "RPanic" and rs in ("RUndef", "RErr TypeError")
-
-
-def p_n3(case, rec, exp):
-    o, rs, ri = _at(case, exp, ("settyped",))
-    return bool(o) and rs == "RErr TypeError" and ri in ("RErr RangeError", "RUndef")
-
-
-def p_n4(case, rec, exp):
-    o, rs, ri = _at(case, exp, ("dvctor",))
-    return bool(o) and _det(o.get("a2")) and rs == "RErr TypeError" and ri == "RErr RangeError"
-
-
-def p_n5(case, rec, exp):
-    o, rs, ri = _at(case, exp, ("bufslice",))
-    return bool(o) and rs == "RErr TypeError" and ri.startswith("RNewBuf")
-
-
-def p_n6(case, rec, exp):
-    o, rs, ri = _at(case, exp, ("copywithin",))
-    return bool(o) and (_det(o.get("a1")) or _det(o.get("a2")) or _det(o.get("a3"))) and rs == "RUndef" and ri == "RErr TypeError"
-
-
-def p_n7(case, rec, exp):
+def p_n8(case, rec, exp):
+    """fill: value of the wrong type and a detaching start/end: TypeError in both readings, the detach happened (goja) or not (spec)"""
     o, rs, ri = _at(case, exp, ("fill",))
-    if not o or rs != "RUndef" or ri != "RUndef":
+    if not o or rs != "RErr TypeError" or ri != "RErr TypeError":
         return False
     v = o.get("val") or {}
-    if not v.get("big"):
+    return bool(v.get("big")) != (o.get("k", 0) >= 9) and (_det(o.get("a1")) or _det(o.get("a2")))
+
+
+def p_n9(case, rec, exp):
+    """V[key] = value with a non-index numeric key (or an integer beyond 2^53) and a value of the wrong type"""
+    o, rs, ri = _at(case, exp, ("set",))
+    if not o or rs != "RErr TypeError" or ri != "RUndef":
         return False
-    w = int(v["z"]) % 2 ** 64
-    return w > 2 ** 63      # negative as an int64, and not -2^63
+    v = o.get("val") or {}
+    nonidx = bool(o.get("ks")) or (o.get("key") is not None and abs(int(o["key"])) > 2 ** 53)
+    return nonidx and bool(v.get("big")) != (o.get("k", 0) >= 9)
 
 
 CFG = {
@@ -128,15 +92,8 @@ CFG = {
         "the implementation is tied to the model only on the generated histories (correspondence), not by proof",
     ],
     "predicates": {
-        "C17.copywithin_count_exceeds_len_minus_to": p_f11,
-        "C17.int_element_conversion_beyond_2_63": p_f10,
-        "C17.set_arraylike_store_after_detach": p_n1,
-        "C17.set_typed_host_panic_at_end_of_data": p_n2,
-        "C17.set_typed_mixed_bigint_error_precedence": p_n3,
-        "C17.dataview_ctor_detach_in_length": p_n4,
-        "C17.arraybuffer_slice_detached_receiver": p_n5,
-        "C17.copywithin_detach_nothing_to_copy": p_n6,
-        "C17.bigint64_fill_negative": p_n7,
+        "C17.fill_coercion_order": p_n8,
+        "C17.nonindex_numeric_key_type_check": p_n9,
     },
     "manifest": {
         "text": ("proof (partial): a byte-list model of ArrayBuffers (with a detached flag), typed-array views of the 11 element kinds and "
